@@ -710,9 +710,10 @@ func (e *Engine) knownPanicSite(st *State, ok *Term, kind string, ins ssa.Instru
 	}
 	pos := e.pos(ins)
 	for _, kp := range st.knownPan {
-		if strings.Contains(pos, kp.where) && e.opts.Known[kp.id] {
+		if knownWhere(kp.where, pos, kind) && e.opts.Known[kp.id] {
 			r, vals, _, _ := e.checkSat(st.pc, e.tt.BNot(ok), e.wantTerms())
 			if r == Sat {
+				logKnownHit(kp.id, kp.where, kind)
 				inputs, _ := e.decodeModel(vals)
 				e.KnownSeen[kp.id] = fmt.Sprintf("panic (%s) at %s, e.g. %v", kind, pos, compactInputs(inputs))
 				e.noteKnown(kp.id, "panic", kind, pos, inputs)
